@@ -3141,7 +3141,8 @@ static coap_str_const_t coap_default_uri_wellknown = {
 static coap_resource_t resource_uri_wellknown;
 
 static void
-handle_request(coap_context_t *context, coap_session_t *session, coap_pdu_t *pdu) {
+handle_request(coap_context_t *context, coap_session_t *session, coap_pdu_t *pdu,
+               int oscore_protected) {
   coap_method_handler_t h = NULL;
   coap_pdu_t *response = NULL;
   coap_opt_filter_t opt_filter;
@@ -3413,13 +3414,19 @@ handle_request(coap_context_t *context, coap_session_t *session, coap_pdu_t *pdu
   }
 
 #if COAP_OSCORE_SUPPORT
-  if ((resource->flags & COAP_RESOURCE_FLAGS_OSCORE_ONLY) && !session->oscore_encryption) {
+  /*
+   * session->oscore_encryption stays set once a protected request has been
+   * accepted on the session: what counts is whether THIS request was protected
+   */
+  if ((resource->flags & COAP_RESOURCE_FLAGS_OSCORE_ONLY) && !oscore_protected) {
     coap_log_debug("request for OSCORE only resource '%*.*s', return 4.04\n",
                    (int)uri_path->length, (int)uri_path->length, uri_path->s);
     resp = 401;
     goto fail_response;
   }
-#endif /* COAP_OSCORE_SUPPORT */
+#else /* !COAP_OSCORE_SUPPORT */
+  (void)oscore_protected;
+#endif /* !COAP_OSCORE_SUPPORT */
   if (resource->is_unknown == 0 && resource->is_proxy_uri == 0) {
     /* Check for existing resource and If-Non-Match */
     opt = coap_check_option(pdu, COAP_OPTION_IF_NONE_MATCH, &opt_iter);
@@ -4010,6 +4017,7 @@ coap_dispatch(coap_context_t *context, coap_session_t *session,
   coap_pdu_t *dec_pdu = NULL;
 #endif /* COAP_OSCORE_SUPPORT */
   int is_ext_token_rst;
+  int oscore_protected = 0;
 
 #ifdef COAP_VERIF_HOOKS
   if (coap_verif_dispatch_hook && coap_verif_dispatch_hook(session, pdu))
@@ -4119,6 +4127,7 @@ coap_dispatch(coap_context_t *context, coap_session_t *session,
         return;
       } else {
         session->oscore_encryption = 1;
+        oscore_protected = 1;
         pdu = dec_pdu;
       }
       coap_log_debug("Decrypted PDU\n");
@@ -4367,7 +4376,7 @@ coap_dispatch(coap_context_t *context, coap_session_t *session,
 #endif /* !COAP_DISABLE_TCP */
 #if COAP_SERVER_SUPPORT
     if (COAP_PDU_IS_REQUEST(pdu))
-      handle_request(context, session, pdu);
+      handle_request(context, session, pdu, oscore_protected);
     else
 #endif /* COAP_SERVER_SUPPORT */
 #if COAP_CLIENT_SUPPORT
@@ -4560,7 +4569,8 @@ coap_check_async(coap_context_t *context, coap_tick_t now) {
   LL_FOREACH_SAFE(context->async_state, async, tmp) {
     if (async->delay != 0 && async->delay <= now) {
       /* Send off the request to the application */
-      handle_request(context, async->session, async->pdu);
+      /* (an OSCORE only resource has seen the request was protected first time) */
+      handle_request(context, async->session, async->pdu, 1);
 
       /* Remove this async entry as it has now fired */
       coap_free_async_lkd(async->session, async);
